@@ -251,6 +251,7 @@ class Parser:
         self.tparams = dict(tparams or {})          # template parameter name -> kind ('T', or 'int' when instantiated at index types)
         self.enums = enums or {}
         self.allow_float = False
+        self.struct_types = set()                   # struct type names whose locals are modelled (configured per target)
         self.ptr_elems = set()                      # element type names `E` such that `E*` is a pointer into the array's data
 
     # -- helpers
@@ -580,6 +581,16 @@ class Parser:
         for kw in ('while', 'do', 'continue', 'goto', 'try', 'throw'):
             if self.at(kw):
                 raise self.err(f'`{kw}` statement (outside the subset)')
+        # `S name;` for a configured struct type S
+        if self.peek().kind == 'id':
+            j, words = 1, [self.peek().text]
+            while self.peek(j).text == '::' and self.peek(j + 1).kind == 'id':
+                words.append(self.peek(j + 1).text)
+                j += 2
+            if '::'.join(words) in self.struct_types and self.peek(j).kind == 'id' and self.at(';', j + 1):
+                v = self.peek(j).text
+                self.i += j + 2
+                return ('structdecl', '::'.join(words), v, ln)
         # declaration?
         save = self.i
         k = self.try_type()
@@ -724,6 +735,8 @@ class Translator:
             return e[1]
         if e[0] == 'mcall' and e[1] == ('var', 'this') and not e[3]:
             return e[2] + '()'
+        if e[0] == 'call' and not e[3]:
+            return e[1] + '()'
         if e[0] == 'member':
             return self._path(e[1]) + '.' + e[2]
         if e[0] == 'un' and e[1] == '*':
@@ -797,6 +810,12 @@ class Translator:
             if p in d and d[p] in env:
                 return (lname(d[p]), env[d[p]])
             raise self.err(ln, f'dereference of `{p}` (outside the subset)')
+        if k == 'index' and self._path(e[1]) in (self.spec.get('list_fields') or {}):
+            v = self.spec['list_fields'][self._path(e[1])]
+            if env.get(v) != 'list':
+                raise self.err(ln, f'`{v}` is not a modelled struct local here')
+            a = self.coerce(self.expr(e[2], env, ln), 'int', ln)
+            return (f'({lname(v)}.getD (Int.toNat ({a})) 0)', 'int')
         if k in ('index', 'mcall', 'member'):
             hit, key = self.accessor(e)
             if hit is None:
@@ -1001,6 +1020,10 @@ class Translator:
     def lvalue(self, e, env, ln):
         if e[0] == 'var' and e[1] in env:
             return e[1]
+        if e[0] == 'index' and self._path(e[1]) in (self.spec.get('list_fields') or {}):
+            return self.spec['list_fields'][self._path(e[1])]
+        if self._path(e) in (self.spec.get('ignored_assign') or {}):
+            return None
         if e[0] == 'un' and e[1] == '*':
             d = self.spec.get('deref') or {}
             p = self._path(e[2])
@@ -1016,11 +1039,13 @@ class Translator:
             k = s[0]
             if k == 'assign':
                 v = self.lvalue(s[2], {**env, **{x: 'int' for x in local}}, s[-1])
-                if v not in local and v not in acc:
+                if v is not None and v not in local and v not in acc:
                     acc.append(v)
             elif k == 'decl':
                 for v, _ in s[2]:
                     local.add(v)
+            elif k == 'structdecl':
+                local.add(s[2])
             elif k == 'block':
                 self.assigned(s[1], env, acc, set(local))
             elif k == 'if':
@@ -1090,9 +1115,32 @@ class Translator:
                 env[v] = kd
                 out.append(f'{pad}let {lname(v)} : {self.lean_type(kd)} := {val}')
             return ('\n'.join(out) + '\n' if out else '') + k(env, ind)
+        if kind == 'structdecl':
+            sl = (self.spec.get('struct_locals') or {}).get(s[2])
+            if sl is None or sl[0] != s[1]:
+                raise self.err(ln, f'local `{s[1]} {s[2]}` is not a configured struct local (outside the subset)')
+            if s[2] in env:
+                raise self.err(ln, f'declaration of `{s[2]}` shadows a variable (outside the subset)')
+            env = dict(env)
+            env[s[2]] = 'list'
+            return f'{pad}let {lname(s[2])} : List Int := {sl[1]}\n' + k(env, ind)
         if kind == 'assign':
             if self.trace_pre([s[3]], env, ln, pad):
                 raise self.err(ln, 'trace mode: array read in an assignment (outside the subset)')
+            tp = self._path(s[2])
+            if tp in (self.spec.get('ignored_assign') or {}):
+                want = self.spec['ignored_assign'][tp]
+                if s[1] != '=' or self._path(s[3]) != want:
+                    raise self.err(ln, f'`{tp}` must be assigned `{want}` (it fixes the length of the modelled list)')
+                return k(env, ind)
+            if s[2][0] == 'index' and self._path(s[2][1]) in (self.spec.get('list_fields') or {}):
+                v = self.spec['list_fields'][self._path(s[2][1])]
+                if env.get(v) != 'list':
+                    raise self.err(ln, f'`{v}` is not a modelled struct local here')
+                ix = self.coerce(self.expr(s[2][2], env, ln), 'int', ln)
+                rhs = s[3] if s[1] == '=' else ('bin', s[1][0], s[2], s[3])
+                val = self.coerce(self.expr(rhs, env, ln), 'int', ln)
+                return f'{pad}let {lname(v)} : List Int := {lname(v)}.set (Int.toNat ({ix})) {self.atom(val)}\n' + k(env, ind)
             v = self.lvalue(s[2], env, ln)
             kd = env[v]
             rhs = s[3]
@@ -1425,6 +1473,13 @@ TARGETS = [
     dict(key='lbp_map', file='mahotas/features/_lbp.cpp', func='map', pick='plain', lean='lbp_map',
          params=[('v', 'u32'), ('points', 'int')], ret_kind='u32',
          doc='`npy_uint32` values are `Nat`s below 2^32'),
+    dict(key='flat_to_pos', file='mahotas/numpypp/array.hpp', func='flat_to_pos', pick='plain', lean='flat_to_pos',
+         params=[('p', 'int')], extra_params=[('dims', 'list')], ret_kind='list',
+         struct_types=['numpy::position'], struct_locals={'res': ('numpy::position', '(List.replicate dims.length (0 : Int))')},
+         list_fields={'res.position_': 'res'}, ignored_assign={'res.nd_': 'ndims()'},
+         accessors={'dim()': ('dims', 'int'), 'ndims()': ('(dims.length : Int)', 'int')},
+         doc='the local `numpy::position res` is the list of its first `ndims()` coordinates (`res.nd_ = ndims()`), zero before it is '
+             'written (the C++ leaves them uninitialised; every one of them is written by the loop); `dim(d)` reads the list `dims`'),
 ]
 
 
@@ -1517,6 +1572,7 @@ def translate_target(repo: Path, tg, known) -> dict:
             raise TranslationError(f'{where}: parameters {got}, expected {exp}')
     pr = Parser(f.body_toks, where, tparams={**{n: 'T' for n in tparams}, **{n: 'int' for n in INT}}, enums=enums)
     pr.ptr_elems = set(tg.get('ptr_elems') or [])
+    pr.struct_types = set(tg.get('struct_types') or [])
     if tg.get('trace'):
         pr.allow_float = True
         pr.tparams.update({n: 'elem' for n in list(tparams) + ['double', 'float']})
@@ -1647,6 +1703,8 @@ def handle_block(entries) -> list[str]:
         call = f'{lean} {"dt " if uses_dt else ""}{" ".join(args)}'
         if opt == 'opt':
             s.append(f'  | "{lean}" => match {call} with | some v => s!"r={{v}}" | none => "r=u"')
+        elif opt == 'list':
+            s.append(f'  | "{lean}" => "r=" ++ showInts ({call})')
         elif opt == 'trace':
             s.append(f'  | "{lean}" => "r=" ++ ";".intercalate (({call}).map fun p => s!"{{p.1}},{{p.2}}")')
         else:
@@ -1678,7 +1736,8 @@ def generate(repo: Path, outdir: Path) -> dict:
         known[tg['func'] if tg['pick'] != 'full' else tg['key']] = dict(
             lean=tg['lean'], params=[kd for _, kd in allp], ret=tg['ret_kind'],
             dt=('T-as-arg' if tg.get('template_call') else uses_dt), trace=bool(tg.get('trace')))
-        entries.append((tg['lean'], [kd for _, kd in allp], uses_dt, 'opt' if tg.get('flag_const') else ('trace' if tg.get('trace') else '')))
+        entries.append((tg['lean'], [kd for _, kd in allp], uses_dt,
+                        'opt' if tg.get('flag_const') else ('trace' if tg.get('trace') else ('list' if tg['ret_kind'] == 'list' else ''))))
         names[blk] = ['Mahotas.Generated.C.' + n for n in defined_names('\n'.join(lines))]
         s += [f'-- BEGIN block {blk}'] + list(lines) + [f'-- END block {blk}', '']
     s += handle_block(entries)
